@@ -85,6 +85,13 @@ def run(ctx, out):
             g.add((ps, SH.path, l1)); g.add((l1, RDF.first, p0)); g.add((l1, RDF.rest, l2)); g.add((l2, RDF.first, p1)); g.add((l2, RDF.rest, RDF.nil))
         g.add((ps, SH.sparql, c))
         g.add((c, SH.select, Literal("SELECT $this ?value WHERE { $this $PATH ?value . FILTER(isIRI(?value)) }")))
+        if rng.random() < 0.6:
+            # the same constraint node used by further shapes with other paths: $PATH / $currentShape are per shape, whichever
+            # shape happens to be evaluated first
+            for k, pk in enumerate(rng.sample(PREDS, 2)):
+                s2, ps2 = EX["SP%d" % (k + 2)], BNode()
+                g.add((s2, RDF.type, SH.NodeShape)); g.add((s2, SH.targetSubjectsOf, p0)); g.add((s2, SH.property, ps2))
+                g.add((ps2, SH.path, pk)); g.add((ps2, SH.sparql, c))
         if rng.random() < 0.4:
             o, d = EX.onto, BNode()
             g.add((c, SH.prefixes, o)); g.add((o, SH.declare, d))
